@@ -200,7 +200,7 @@ def _header_shard(ctx, k):
                 ctx.nontrivial += 1024
                 ctx.hist["header_tracks"] += 1
                 if got != [[ins, dif, exp]]:
-                    e1.report(ctx, "decision-packed", text, HEADER_PROBE, [[[ins, dif, exp]]], got if len(str(got)) < 300 else str(got)[:300], "section [%s], resolution %d distance %d flags %r/%r: states differ from the rule" % (header, r, d, fa, fb))
+                    e1.report(ctx, "decision-packed", text, HEADER_PROBE, [[[ins, dif, exp]]], got if len(str(got)) < 300 else str(got)[:300], "section [%s], resolution %d distance %d flags %r/%r: states differ from the rule" % (header, r, d, fa, fb), extra_case=dict(probe="header"))
 
 
 def _cross_shard(ctx, k):
@@ -317,4 +317,6 @@ def _shrink(ctx, r, d, fa, fb, thr, got, exp, packed_text, sa=0, sb=0):
 
 
 def replay(case):
+    if case.get("probe") == "header":
+        return e1.replay_text_case(case, e1.compile_probe(HEADER_PROBE), "decision", HEADER_PROBE)
     return e1.replay_text_case(case, probe, "decision", PROBE_SRC)
